@@ -121,11 +121,36 @@ type chk struct {
 	evals int64
 }
 
+
+// keep snapshots the integers handed to a library call (secrets, ciphertexts, both parameter sets, Alice's
+// key, the public point); the returned function reports any of them that the call changed.
+func (c *chk) keep(fn string, x *run, more ...*big.Int) func() {
+	all := append([]*big.Int{x.a.v, x.b.v, x.A.NT, x.A.h1, x.A.h2, x.B.NT, x.B.h1, x.B.h2, x.A.sk.N, x.A.sk.P, x.A.sk.Q, x.A.sk.LambdaN, x.A.sk.PhiN}, more...)
+	snap := make([]*big.Int, len(all))
+	for i, a := range all {
+		if a != nil {
+			snap[i] = new(big.Int).Set(a)
+		}
+	}
+	return func() {
+		for i, a := range all {
+			if a != nil && a.Cmp(snap[i]) != 0 {
+				c.r.Violate("purity/"+fn+"/argument-modified", fmt.Sprintf("%s changed one of the values its caller handed over (argument slot %d)", fn, i), map[string]string{"before": snap[i].String(), "after": a.String(), "run": x.name})
+			}
+		}
+	}
+}
+
 // bob runs Bob's step of the right variant on (possibly altered) cA with the given public point.
 func (c *chk) bob(x *run, cA *big.Int, pt *crypto.ECPoint, label string) (beta, cB *big.Int, piB *mta.ProofBob, piBwc *mta.ProofBobWC, err error, pan string) {
 	ec := tss.S256()
 	rd := core.NewDRBG("c13/bob/" + x.name + "/" + label)
 	pkA := &x.A.sk.PublicKey
+	args := []*big.Int{cA}
+	if pt != nil {
+		args = append(args, pt.X(), pt.Y())
+	}
+	defer c.keep("BobMid", x, args...)()
 	pan = try(func() {
 		if x.variant == "MtA" {
 			beta, cB, _, piB, err = mta.BobMid(x.session, ec, pkA, x.pfA, x.b.v, cA, x.A.NT, x.A.h1, x.A.h2, x.B.NT, x.B.h1, x.B.h2, rd)
@@ -140,6 +165,11 @@ func (c *chk) bob(x *run, cA *big.Int, pt *crypto.ECPoint, label string) (beta, 
 func (c *chk) alice(x *run, cB *big.Int, piB *mta.ProofBob, piBwc *mta.ProofBobWC, pt *crypto.ECPoint) (alpha *big.Int, err error, pan string) {
 	ec := tss.S256()
 	pkA := &x.A.sk.PublicKey
+	args := []*big.Int{x.cA, cB}
+	if pt != nil {
+		args = append(args, pt.X(), pt.Y())
+	}
+	defer c.keep("AliceEnd", x, args...)()
 	pan = try(func() {
 		if x.variant == "MtA" {
 			alpha, err = mta.AliceEnd(x.session, ec, pkA, piB, x.A.h1, x.A.h2, x.cA, cB, x.A.NT, x.A.sk)
@@ -169,6 +199,8 @@ func (c *chk) honest(x *run) {
 	// Alice, step 1
 	var err error
 	rd := core.NewDRBG("c13/run/" + x.name)
+	doneInit := c.keep("AliceInit", x)
+	defer doneInit()
 	if p := try(func() { x.cA, x.pfA, err = mta.AliceInit(ec, &x.A.sk.PublicKey, x.a.v, x.B.NT, x.B.h1, x.B.h2, rd) }); p != "" {
 		r.Violate("honest/"+x.variant+"/AliceInit/"+cls+":panic", "AliceInit panicked: "+p, x.record())
 		return
